@@ -144,6 +144,9 @@ type gateObs struct {
 	Obs         []string         `json:"obs"`
 	Err         bool             `json:"err"`
 	Panic       bool             `json:"panic"`
+	HasLazy     bool             `json:"hasLazy"`  // the input evaluates lazily compiled text whose outcome the specification predicts
+	LazyPred    []string         `json:"lazyPred"` // families it predicts to be compiled there
+	LazyObs     []string         `json:"lazyObs"`  // families executed in nested VMs
 	IdentLike   bool             `json:"identLike"`
 	Claim       string           `json:"claim"`
 	IdentLoaded bool             `json:"identLoaded"`
@@ -154,7 +157,7 @@ type gateObs struct {
 
 // gateObserve runs text on vm (already configured as cfg) and records everything the gate specification talks about
 func gateObserve(vm *ds.Context, cfg gateCfg, text string, prior map[string]bool) *gateObs {
-	o := &gateObs{Ev: "gate", Cfg: cfg, MacroOn: []string{}, Pred: []string{}, Obs: []string{}, Example: text, Count: 1}
+	o := &gateObs{Ev: "gate", Cfg: cfg, MacroOn: []string{}, Pred: []string{}, Obs: []string{}, LazyPred: []string{}, LazyObs: []string{}, Example: text, Count: 1}
 	mo := map[string]bool{}
 	for _, m := range reMacroOn.FindAllStringSubmatch(text, -1) {
 		mo[m[1]] = true
@@ -169,15 +172,23 @@ func gateObserve(vm *ds.Context, cfg gateCfg, text string, prior map[string]bool
 		}
 	}
 	exec := map[string]bool{}
+	nested := map[string]bool{}
 	ds.VerifStepHook = func(info *ds.VerifStepInfo) {
 		if cl := gateClass(info.Op, info.Operand); cl != "" {
 			exec[cl] = true
+			if info.Depth > 0 {
+				nested[cl] = true
+			}
 		}
 	}
 	var err, rerr error
 	var listing []ds.VerifInstr
 	rest := ""
 	g := guard("Run", func() {
+		if strings.HasPrefix(text, "RunExpr:") {
+			_, rerr = vm.RunExpr(strings.TrimPrefix(text, "RunExpr:"), true)
+			return
+		}
 		if err = vm.Parse(text); err == nil {
 			listing = vm.VerifCode()
 			if off := vm.VerifParserOffset(); off >= 0 && off <= len(text) {
@@ -202,6 +213,11 @@ func gateObserve(vm *ds.Context, cfg gateCfg, text string, prior map[string]bool
 		o.Emis = []map[string]any{}
 	}
 	o.Executed = sortedSet(exec)
+	for _, c := range sortedSet(nested) {
+		if c == "coc" || c == "wod" || c == "fate" || c == "doublecross" {
+			o.LazyObs = append(o.LazyObs, c)
+		}
+	}
 	lc := map[string]bool{}
 	// after a parse error the VM still holds the code of an earlier input: nothing was compiled for this one
 	listingClasses(listing, lc)
@@ -325,6 +341,10 @@ func gateItem(it map[string]any) (text string, pred []string) {
 		return "", nil
 	}
 	switch it["t"] {
+	case "lazy":
+		return "cv_" + s, []string{"ident:cv_" + s}
+	case "runexpr":
+		return "RunExpr:" + s, nil
 	case "macro":
 		return fmt.Sprintf("// #EnableDice %s %v", f, it["on"]), nil
 	case "stmt":
@@ -381,16 +401,29 @@ func init() {
 			vm := ds.NewVM()
 			pl.Cfg.apply(vm)
 			vm.Config.OpCountLimit = 5000
+			// host-created computed values whose text is a family spelling: compiled when first evaluated
+			for _, sp := range []string{"b2", "p", "B", "P3", "a10", "f", "F"} {
+				vm.StoreNameLocal("cv_"+sp, ds.NewComputedVal(sp))
+			}
+			// nothing in these histories defines code under a macro that a later input could legitimately run
 			prior := map[string]bool{}
 			for _, run := range pl.Runs {
 				lines := []string{}
 				pred := []string{}
-				st := false
+				lazy := map[string]bool{}
+				st, hasLazy, runexpr := false, false, false
 				for _, it := range run {
 					t, p := gateItem(it)
 					lines = append(lines, t)
 					pred = append(pred, p...)
 					st = st || it["t"] == "st"
+					if it["t"] == "lazy" || it["t"] == "runexpr" {
+						hasLazy = true
+						runexpr = runexpr || it["t"] == "runexpr"
+						if it["as"] == "dice" {
+							lazy[it["f"].(string)] = true
+						}
+					}
 				}
 				for _, x := range pred {
 					if x == "error" { // the input is rejected as a whole
@@ -398,11 +431,15 @@ func init() {
 					}
 				}
 				text := strings.Join(lines, "\n")
-				if !st {
+				if !st && !runexpr {
 					text = "0\n" + text
 				}
 				o := gateObserve(vm, pl.Cfg, text, prior)
-				o.HasPred, o.Pred = true, pred
+				o.HasPred, o.Pred = !runexpr, pred
+				stopped := len(o.Obs) > 0 && (o.Obs[len(o.Obs)-1] == "stop" || o.Obs[0] == "error")
+				if hasLazy && !stopped && !o.Err {
+					o.HasLazy, o.LazyPred = true, sortedSet(lazy)
+				}
 				if st {
 					kept := []string{}
 					for _, x := range o.Obs {
@@ -413,9 +450,6 @@ func init() {
 					o.Obs = kept
 				}
 				agg.add(o)
-				for _, m := range o.MacroOn {
-					prior[m] = true
-				}
 			}
 		})
 		agg.flush(w)
